@@ -308,6 +308,10 @@ def run_case(h: Harness, case, tmp: str, n: int):
         aggs = [aggregate(c, minimize) for (_, _, c, _) in events]
         h.agree("SingleObjectiveProgressTracker.evaluate", ["track_flags", aggs], [f for (_, _, _, f) in events],
                 nontrivial=len(aggs) >= 2, replay=case)
+        h.holds("SingleObjectiveProgressTracker.evaluate", "row-flagged-best-is-not-a-strict-improvement",
+                ["prop_flags", aggs, [f for (_, _, _, f) in events]],
+                f"{describe(case)}: maximising aggregates {aggs} were announced to the recorder with is_best={[f for (_, _, _, f) in events]} "
+                f"(so the best-only log {'holds' if only_best else 'would hold'} rows that are not strict improvements, or misses one)", case, nontrivial=len(aggs) >= 2)
     h.count(f"kind={kind}")
     h.count(f"objectives={k}")
     h.count(f"extras={len(extras)}")
